@@ -91,12 +91,43 @@ Proof. exact int_weights_bounds_eq_repeat. Qed.
 Print Assumptions C09_int_weights_bounds_eq_repeat.
 
 (* ---- non-negative integer weights = each value repeated weight times ---- *)
-Theorem C09_int_weights_eq_repeat : forall xs ws st, length ws = length xs -> repeat_by_weights xs ws <> [] ->
+(* also when every weight is zero: the repeated sample is empty and both Means are NaN *)
+Theorem C09_int_weights_eq_repeat : forall xs ws st, length ws = length xs ->
   fres_eq (sample_mean (mkSample xs (Some (map Qofnat ws)) st)) (mean (repeat_by_weights xs ws)) /\
   sample_sum (mkSample xs (Some (map Qofnat ws)) st) == vsum (repeat_by_weights xs ws) /\
   sample_weight (mkSample xs (Some (map Qofnat ws)) st) == Qofnat (length (repeat_by_weights xs ws)).
 Proof. exact int_weights_eq_repeat. Qed.
 Print Assumptions C09_int_weights_eq_repeat.
+
+(* ---- where the weighted Mean / GeoMean have no value ---- *)
+(* weighted Mean: NaN exactly when nothing carries weight (total weight 0, e.g. every weight zero) *)
+Theorem C09_weighted_mean_nan_iff : forall xs ws st, xs <> [] ->
+  (sample_mean (mkSample xs (Some ws) st) = FNaN <-> wsum_w (combine xs ws) == 0).
+Proof. exact sample_mean_nan_iff. Qed.
+Print Assumptions C09_weighted_mean_nan_iff.
+
+(* weighted GeoMean (non-negative weights): NaN exactly when a value <= 0 carries a non-zero weight or nothing
+   carries weight; a non-positive value of weight zero is ignored *)
+Theorem C09_weighted_geomean_nan_iff : forall xs ws st, xs <> [] -> nonneg_weights (combine xs ws) ->
+  (sample_geomean (mkSample xs (Some ws) st) = GNaN <->
+   (exists x w, In (x, w) (combine xs ws) /\ x <= 0 /\ ~ w == 0) \/ wsum_w (combine xs ws) == 0).
+Proof. exact sample_geomean_nan_iff. Qed.
+Print Assumptions C09_weighted_geomean_nan_iff.
+
+(* integer weights: NaN exactly when the GeoMean of the repeated sample is NaN (it is empty or contains a value <= 0) *)
+Theorem C09_int_weights_geomean_nan_iff : forall xs ws st, length ws = length xs ->
+  (sample_geomean (mkSample xs (Some (map Qofnat ws)) st) = GNaN <-> geomean (repeat_by_weights xs ws) = GNaN).
+Proof. exact int_weights_geomean_nan_iff. Qed.
+Print Assumptions C09_int_weights_geomean_nan_iff.
+
+(* the NaN-ness does not depend on the order of the (value, weight) pairs *)
+Theorem C09_weighted_nan_order_independent : forall ps ps' st st', Permutation ps ps' -> nonneg_weights ps ->
+  (sample_mean (mkSample (map fst ps) (Some (map snd ps)) st) = FNaN <->
+   sample_mean (mkSample (map fst ps') (Some (map snd ps')) st') = FNaN) /\
+  (sample_geomean (mkSample (map fst ps) (Some (map snd ps)) st) = GNaN <->
+   sample_geomean (mkSample (map fst ps') (Some (map snd ps')) st') = GNaN).
+Proof. exact weighted_nan_perm. Qed.
+Print Assumptions C09_weighted_nan_order_independent.
 
 (* ---- GeoMean = exp(sum c_i ln x_i): the coefficients the code builds ---- *)
 (* unweighted: every c_i = 1/n, all values positive: GeoMean = (prod x_i)^(1/n) *)
@@ -194,7 +225,12 @@ Example C09_example_stats :
   sample_bounds (mkSample [1; 2; 3] (Some [0; 1; 0]) true) = Some (2, 2) /\
   repeat_by_weights [1; 2; 3] [0; 1; 2]%nat = [2; 3; 3] /\
   geomean [2; 8] = GExp [1 # 2; 1 # 2] /\ geomean [2; 0] = GNaN /\
-  sample_geomean (mkSample [2; 8; 5] (Some [1; 3; 0]) false) = GExp [1 # 4; 3 # 4; 0].
+  sample_geomean (mkSample [2; 8; 5] (Some [1; 3; 0]) false) = GExp [1 # 4; 3 # 4; 0] /\
+  (* every weight zero: NaN; a value <= 0 that carries weight: NaN in either order; of weight zero: ignored *)
+  sample_mean (mkSample [1] (Some [0]) false) = FNaN /\ sample_geomean (mkSample [1] (Some [0]) false) = GNaN /\
+  sample_geomean (mkSample [0] (Some [1]) false) = GNaN /\
+  sample_geomean (mkSample [0; 4] (Some [1; 1]) false) = GNaN /\ sample_geomean (mkSample [4; 0] (Some [1; 1]) false) = GNaN /\
+  sample_geomean (mkSample [0; 4] (Some [0; 1]) false) = GExp [0; 1].
 Proof. vm_compute. repeat split; reflexivity. Qed.
 
 Example C09_example_sort_history :
@@ -208,7 +244,7 @@ Proof. vm_compute. repeat split; reflexivity. Qed.
    check_C09 = p_line (decoding) followed by check_case (comparison).  Verdict 1 (borderline) is never produced:
    an accepted verdict has code 0.  It implies [case_ok cs] for the decoded case cs:
      kind 0  stats_ok: stats.Mean / Sample.Mean within tol_mean (weighted: tol_wmean) of mean_def xs = sum/n
-             (weighted: wmean_def = sum(w x)/sum(w), for non-negative weights of positive total); Variance within
+             (weighted: wmean_def = sum(w x)/sum(w) when some weight is non-zero, NaN when none is); Variance within
              tol_var of var_def xs = sum (x - mean)^2/(n-1) (one value: 0); StdDev s through its square:
              0 <= s and |s^2 - var| <= tol_std = tol_var + 8 ulp var; Sum within tol_sum of Qsum xs (weighted: of
              wsum_xw = sum(w x)); Weight = n exactly (weighted: within tol_sum ws of Qsum ws); Bounds = exactly
@@ -218,8 +254,8 @@ Proof. vm_compute. repeat split; reflexivity. Qed.
              else positive with |g^n - prod xs| <= geo_rel n * prod xs when n <= 64, and ONLY bracketed between the least
              and the greatest value (relative 1e-9) when n > 64 (geo_ok); weighted (sgeo_ok): g^D within geo_rel_D of
              prod x_i^e_i with e_i / D = w_i / W when the lcm D of the reduced denominators of the w_i / W is <= 64, else
-             only bracketed between the least and greatest value carrying weight; not compared when a value <= 0
-             carries weight or the total weight is 0.
+             only bracketed between the least and greatest value carrying weight; NaN exactly when a value <= 0
+             carries weight or the total weight is 0 (a non-positive value of weight zero is ignored).
      kind 1  hist_ok: every dump equals the model store, every queried sample is a legal Sample (swf) and the query
              satisfies query_obs_ok (same predicates as above) for it — stated relative to the model store h_step
              (see meta: partial).
@@ -232,11 +268,15 @@ Proof. exact check_ok_sound. Qed.
 Print Assumptions C09_check_ok_sound.
 
 (* stats_ok also records that the case is a legal Sample (check_case refuses others as malformed), which discharges the
-   premises of its weighted-Mean and Bounds clauses: the weighted Mean is compared whenever some weight is non-zero
-   (total weight 0 is the one case that is NOT compared: the code returns 0 there), Bounds always *)
+   premises of its weighted clauses.  For a weighted non-empty sample: EVERY WEIGHT ZERO -> the observed Sample.Mean and
+   Sample.GeoMean are NaN (status 0); A VALUE <= 0 CARRIES WEIGHT -> the observed Sample.GeoMean is NaN; some weight
+   non-zero -> the Mean is within tol_wmean of sum(w x)/sum(w).  Bounds always. *)
 Theorem C09_check_ok_weighted_mean_bounds : forall sorted hasw xs ws o, stats_ok sorted hasw xs ws o ->
-  (hasw = true -> xs <> [] -> (exists w, In w ws /\ ~ w == 0) ->
-     sm_st o = 0%Z /\ obs_near (tol_wmean xs) (wmean_def (combine xs ws)) (sm_mean o)) /\
+  (hasw = true -> xs <> [] ->
+     sm_st o = 0%Z /\ sg_st o = 0%Z /\
+     ((forall v, In v ws -> v == 0) -> sm_mean o = XNaN /\ sg_geo o = XNaN) /\
+     ((exists x v, In (x, v) (combine xs ws) /\ x <= 0 /\ ~ v == 0) -> sg_geo o = XNaN) /\
+     ((exists v, In v ws /\ ~ v == 0) -> obs_near (tol_wmean xs) (wmean_def (combine xs ws)) (sm_mean o))) /\
   bounds_ok (if hasw then used (combine xs ws) else xs) (s_bmin o) (s_bmax o).
 Proof. exact stats_ok_closed. Qed.
 Print Assumptions C09_check_ok_weighted_mean_bounds.
@@ -256,8 +296,9 @@ Print Assumptions C09_compare_history_sound.
    invariant of the store along an accepted run), which discharges the premises of the weighted-Mean and Bounds clauses *)
 Theorem C09_compare_query_closed : forall s mst m sm w b1 b2 vst v, swf s -> query_obs_ok s mst m sm w b1 b2 vst v ->
   match s_ws s with
-  | Some ws => (s_xs s <> [] -> (exists w0, In w0 ws /\ ~ w0 == 0) ->
-                  mst = 0%Z /\ obs_near (tol_wmean (s_xs s)) (wmean_def (combine (s_xs s) ws)) m) /\
+  | Some ws => (s_xs s <> [] ->
+                  mst = 0%Z /\ ((forall w0, In w0 ws -> w0 == 0) -> m = XNaN) /\
+                  ((exists w0, In w0 ws /\ ~ w0 == 0) -> obs_near (tol_wmean (s_xs s)) (wmean_def (combine (s_xs s) ws)) m)) /\
                bounds_ok (used (combine (s_xs s) ws)) b1 b2
   | None => bounds_ok (s_xs s) b1 b2
   end.
